@@ -135,8 +135,8 @@ def deterministic_srt(lay: bool, style: bool, ital: int, same: bool) -> str:
     """
     cs = build_set(cap_l=1 if lay else 0, node_l=0, style=1 if style else 0, set_styles=1, italics=ital, same_times=same)
     # the set written before: another document that reuses the class name s1 with other rules, has an unclosed
-    # span, two languages and layouts at several levels
-    other = build_set(cap_l=2, node_l=1, italics=2, two_langs=True, style=1, set_styles=3)
+    # span, two languages and layouts at every level (set, language, caption, node)
+    other = build_set(set_l=5, lang_l=1, cap_l=2, node_l=1, italics=2, two_langs=True, style=1, set_styles=3)
     return _deterministic(0, True, cs, other)
 
 
@@ -167,8 +167,8 @@ def deterministic_vtt(lay: bool, style: bool, ital: int, same: bool) -> str:
     """
     cs = build_set(cap_l=1 if lay else 0, node_l=0, style=1 if style else 0, set_styles=1, italics=ital, same_times=same)
     # the set written before: another document that reuses the class name s1 with other rules, has an unclosed
-    # span, two languages and layouts at several levels
-    other = build_set(cap_l=2, node_l=1, italics=2, two_langs=True, style=1, set_styles=3)
+    # span, two languages and layouts at every level (set, language, caption, node)
+    other = build_set(set_l=5, lang_l=1, cap_l=2, node_l=1, italics=2, two_langs=True, style=1, set_styles=3)
     return _deterministic(1, True, cs, other)
 
 
@@ -199,8 +199,8 @@ def deterministic_mdvd(lay: bool, style: bool, ital: int, same: bool) -> str:
     """
     cs = build_set(cap_l=1 if lay else 0, node_l=0, style=1 if style else 0, set_styles=1, italics=ital, same_times=same)
     # the set written before: another document that reuses the class name s1 with other rules, has an unclosed
-    # span, two languages and layouts at several levels
-    other = build_set(cap_l=2, node_l=1, italics=2, two_langs=True, style=1, set_styles=3)
+    # span, two languages and layouts at every level (set, language, caption, node)
+    other = build_set(set_l=5, lang_l=1, cap_l=2, node_l=1, italics=2, two_langs=True, style=1, set_styles=3)
     return _deterministic(2, True, cs, other)
 
 
@@ -231,8 +231,8 @@ def deterministic_scc(lay: bool, style: bool, ital: int, same: bool) -> str:
     """
     cs = build_set(cap_l=1 if lay else 0, node_l=0, style=1 if style else 0, set_styles=1, italics=ital, same_times=same)
     # the set written before: another document that reuses the class name s1 with other rules, has an unclosed
-    # span, two languages and layouts at several levels
-    other = build_set(cap_l=2, node_l=1, italics=2, two_langs=True, style=1, set_styles=3)
+    # span, two languages and layouts at every level (set, language, caption, node)
+    other = build_set(set_l=5, lang_l=1, cap_l=2, node_l=1, italics=2, two_langs=True, style=1, set_styles=3)
     return _deterministic(3, True, cs, other)
 
 
@@ -263,8 +263,8 @@ def deterministic_sami(lay: bool, style: bool, ital: int, same: bool) -> str:
     """
     cs = build_set(cap_l=1 if lay else 0, node_l=0, style=1 if style else 0, set_styles=1, italics=ital, same_times=same)
     # the set written before: another document that reuses the class name s1 with other rules, has an unclosed
-    # span, two languages and layouts at several levels
-    other = build_set(cap_l=2, node_l=1, italics=2, two_langs=True, style=1, set_styles=3)
+    # span, two languages and layouts at every level (set, language, caption, node)
+    other = build_set(set_l=5, lang_l=1, cap_l=2, node_l=1, italics=2, two_langs=True, style=1, set_styles=3)
     return _deterministic(4, True, cs, other)
 
 
@@ -295,8 +295,8 @@ def deterministic_dfxp(lay: bool, style: bool, ital: int, same: bool) -> str:
     """
     cs = build_set(cap_l=1 if lay else 0, node_l=0, style=1 if style else 0, set_styles=1, italics=ital, same_times=same)
     # the set written before: another document that reuses the class name s1 with other rules, has an unclosed
-    # span, two languages and layouts at several levels
-    other = build_set(cap_l=2, node_l=1, italics=2, two_langs=True, style=1, set_styles=3)
+    # span, two languages and layouts at every level (set, language, caption, node)
+    other = build_set(set_l=5, lang_l=1, cap_l=2, node_l=1, italics=2, two_langs=True, style=1, set_styles=3)
     return _deterministic(5, True, cs, other)
 
 
@@ -327,8 +327,8 @@ def deterministic_single(lay: bool, style: bool, ital: int, same: bool) -> str:
     """
     cs = build_set(cap_l=1 if lay else 0, node_l=0, style=1 if style else 0, set_styles=1, italics=ital, same_times=same)
     # the set written before: another document that reuses the class name s1 with other rules, has an unclosed
-    # span, two languages and layouts at several levels
-    other = build_set(cap_l=2, node_l=1, italics=2, two_langs=True, style=1, set_styles=3)
+    # span, two languages and layouts at every level (set, language, caption, node)
+    other = build_set(set_l=5, lang_l=1, cap_l=2, node_l=1, italics=2, two_langs=True, style=1, set_styles=3)
     return _deterministic(6, True, cs, other)
 
 
@@ -359,8 +359,8 @@ def deterministic_legacy(lay: bool, style: bool, ital: int, same: bool) -> str:
     """
     cs = build_set(cap_l=1 if lay else 0, node_l=0, style=1 if style else 0, set_styles=1, italics=ital, same_times=same)
     # the set written before: another document that reuses the class name s1 with other rules, has an unclosed
-    # span, two languages and layouts at several levels
-    other = build_set(cap_l=2, node_l=1, italics=2, two_langs=True, style=1, set_styles=3)
+    # span, two languages and layouts at every level (set, language, caption, node)
+    other = build_set(set_l=5, lang_l=1, cap_l=2, node_l=1, italics=2, two_langs=True, style=1, set_styles=3)
     return _deterministic(7, True, cs, other)
 
 
